@@ -45,12 +45,29 @@ def cb_sleep(tag):
     task.sleep(1)
     vf.rec("cb_post", tag_cb=tag)
 
+class Cbk:
+    """Two instances: the same method of each is a different callback."""
+
+    def __init__(self, who):
+        self.who = who
+
+    def done(self, tag):
+        vf.rec("cb", tag_cb=tag, who=self.who)
+
+KA = Cbk("A")
+KB = Cbk("B")
+
+def cb_unique(tag):
+    # a callback that claims a unique name: the name dies with the task that is ending
+    vf.rec("cb", tag_cb=tag)
+    task.unique("u_cb")
+
 def cb_once(tag):
     # a one-shot callback: takes itself off the task it is running for
     vf.rec("cb", tag_cb=tag)
     task.remove_done_callback(task.current_task(), cb_once)
 
-CBS = {"cb": cb, "cb2": cb2, "cb_raise": cb_raise, "cb_sleep": cb_sleep, "cb_once": cb_once}
+CBS = {"cb": cb, "cb2": cb2, "cb_raise": cb_raise, "cb_sleep": cb_sleep, "cb_once": cb_once, "cb_unique": cb_unique, "m_a": KA.done, "m_b": KB.done}
 
 def child(kind, dur, cid):
     vf.rec("child_start", cid=cid)
@@ -155,13 +172,13 @@ def gen_plan(rng):
         k = rng.random()
         ncb += 1
         if k < 0.55:
-            plan.append(["cb_add", tgt, rng.choice(["cb", "cb", "cb2", "cb_raise", "cb_sleep", "cb_once"]), f"t{ncb}", [ncb] if rng.random() < 0.5 else [], {"kx": ncb} if rng.random() < 0.3 else {}])
-            if plan[-1][2] in ("cb_raise", "cb_sleep", "cb_once"):
+            plan.append(["cb_add", tgt, rng.choice(["cb", "cb", "cb2", "cb_raise", "cb_sleep", "cb_once", "cb_unique", "m_a", "m_b", "m_a", "m_b"]), f"t{ncb}", [ncb] if rng.random() < 0.5 else [], {"kx": ncb} if rng.random() < 0.3 else {}])
+            if plan[-1][2] in ("cb_raise", "cb_sleep", "cb_once", "cb_unique", "m_a", "m_b"):
                 plan[-1][4], plan[-1][5] = [], {}
         elif k < 0.75:
             plan.append(["cb_add_native", tgt, f"n{ncb}"])
         else:
-            plan.append(["cb_remove", tgt, rng.choice(["cb", "cb2", "cb_raise"])])
+            plan.append(["cb_remove", tgt, rng.choice(["cb", "cb2", "cb_raise", "m_a"])])
     tail = []
     suspended = False
     for _ in range(rng.randint(0, 4)):
